@@ -1,24 +1,68 @@
 # C06 — parent and watchers learn of a termination exactly once
+# Two sub-checks: the kernel model (klock, shared with C03/C04/C05: one node, every role table and schedule) and the watch
+# bookkeeping of one target with watchers on TWO linked nodes (c06remote: watchers identified by node AND name).
 import kernel_common as K
 
+TRUSTED_REMOTE = [
+    "hand-written model coq/C06/RemoteWatchModel.v of the watch bookkeeping of ONE target actor (engine/vivid/actor_context.go onWatch / "
+    "onUnWatch / tryTerminated: table keyed by the sender's full URL, parent skipped, a terminating target answers at once; abyss.go: the "
+    "dead-letter process answers every Watch of an unregistered address) with watchers identified by (node, name), tied on every run by "
+    "differential execution (harness/cmd/c06remote): scripts run on two REAL vivid actor systems linked through sharing on 127.0.0.1 "
+    "(ephemeral ports, gRPC), eight recording actors with the same four names on both nodes, a fresh target per script spawned by /user/p of "
+    "node 0; after EVERY operation quiescence of both nodes (tracking dispatcher through the verif hook VerifSetDefaultDispatcher) + a fence "
+    "message over the link in each direction, then the notices handled so far by each of the eight actors are compared inside Coq",
+    "sequential tie: one request at a time to quiescence on both nodes; 'racing with the termination' is the state in which the target has "
+    "handled the terminate request and waits for its child (the child's dispatcher is held by the harness) — interleavings inside one "
+    "mailbox step are the kernel model's business (one node); the link is up and FIFO (C11); no link failure, no watcher that terminates",
+    "the iteration order of the watchers map is not observable (the notices go to pairwise different mailboxes): the model keeps a list",
+]
+
 MANIFEST = {
-    "text": "Kernel model (watchers, onWatch immediate answer when terminating, dead-letter process answering Watch for unknown addresses, "
+    "text": "Two tied models. (1) Kernel model (watchers, onWatch immediate answer when terminating, dead-letter process answering Watch for unknown addresses, "
             "notification of watchers then parent with the parent skipped among the watchers) replayed in lockstep against the real actor "
             "system with Watch/UnWatch placed at random relative to terminations, including never-existing addresses and watching parents. "
             "Proved for every role table and every run from the fresh system (Kernel/Watch.v, invariant over watcher tables, queued Watch "
             "requests and queued notices, relative to the trace): C06_notified_only_if_entitled — an address handles OnTerminated(w) only if it "
-            "issued a Watch for w earlier in the run or is the parent of an object created under w (no spurious notification); a terminated "
-            "actor emits nothing further (C06_terminated_is_silent_partial); concrete executions of every clause by vm_compute Examples. The "
-            "universally quantified COUNTING clause (exactly one) is not proved; it is checked per run by step equality with the model and "
-            "the monitors C06:duplicate-notification / C06:missing-notification / sentinel.",
-    "note": "Partial (counting clause by correspondence + monitors only). Same trusted base as C03.",
-    "technique": "Coq proof on a message-step kernel model + lockstep differential replay of the real actor system inside Coq",
+            "issued a Watch for w earlier in the run or is the parent of an object created under w (no spurious notification); "
+            "C06_no_duplicate_notice (Kernel/Notice.v: handled notices <= watch requests + children created, for every pair of addresses); a "
+            "terminated actor emits nothing further (C06_terminated_is_silent_partial); concrete executions of every clause by vm_compute "
+            "Examples. On one node the lower half of the counting clause (never lost) is checked per run by step equality with the model and the "
+            "monitors C06:duplicate-notification / C06:missing-notification / sentinel. "
+            "(2) Remote watch: executable model of the watch bookkeeping of ONE target whose watchers live on two linked nodes and are "
+            "identified by (node, name) — actors with the same logical address on different nodes are different watchers —, the parent, and "
+            "the operations Watch w / Unwatch w / the target begins to terminate (waits for its child) / the termination completes, with the "
+            "table key as a parameter. Proved by induction for EVERY operation sequence and every injective key (the code's key, the full URL, "
+            "is one: C06_remote_url_key_injective): a watcher whose last request before the termination was a Watch and who did not unwatch "
+            "while the target was terminating handles exactly one notice for it, plus one per Watch racing with the termination, plus one per "
+            "Watch issued afterwards (C06_remote_watching_notified_exactly_once, _atomic_watching); one that never asked, or unwatched last, "
+            "handles none but those answers (C06_remote_not_watching_not_notified, _atomic_not_watching); the parent exactly one whatever anybody "
+            "requested, a watching parent included (C06_remote_parent_notified_exactly_once); nobody anything before the termination begins "
+            "(C06_remote_silent_while_alive); a Watch of an address that never existed is answered exactly once per request "
+            "(C06_remote_absent_answered_once_per_watch); FRAME: what a watcher handles depends only on its own requests and the termination "
+            "(C06_remote_frame), so a request of another watcher — its namesake on the other node — inserted anywhere changes nothing "
+            "(C06_remote_frame_other_watcher). Keyed by the logical address alone the statement is false (Example "
+            "C06_remote_keyed_by_name_refuted_example). Each run drives ~2 000 scripts (20 000 thorough) on two REAL actor systems linked "
+            "through sharing on loopback (eight recording actors, the same four names on both nodes; Watch/UnWatch before, while and after the "
+            "target terminates, by same-name pairs, by the parent and by the parent's namesake, duplicates, references kept or fresh, addresses "
+            "that never existed) and compares the notices handled by every actor after every step with the model inside Coq; Go-side monitors "
+            "C06:remote:{missing-notification, duplicate-notification, unentitled-notification, late-notification, no-quiescence} restate the "
+            "clause on the harness's own ledger.",
+    "note": "Partial. One node: the lower half of the counting clause (a notice is never lost) is decided per run (correspondence + monitors), "
+            "not by theorem; same trusted base as C03. Two nodes: the counting clause is proved of the sequential bookkeeping model only — one "
+            "request at a time to quiescence, link up and FIFO, watchers that do not terminate themselves; the model is tied to the code by runs "
+            "(two real systems over loopback gRPC), separately from the kernel model, not to it.",
+    "technique": "Coq proof on a message-step kernel model + lockstep differential replay of the real actor system inside Coq; Coq proof "
+                 "(induction over every operation sequence, per-watcher automaton + frame) on a two-node watch bookkeeping model + "
+                 "differential runs of two real actor systems linked over loopback, compared step by step inside Coq",
 }
+
+REMOTE_SUB = {"pkg": "c06remote", "sub": "remote", "kinds": ["C06:remote:"]}
 
 
 def check(ctx):
-    return K.check(ctx, "C06", ["C06:", "kernel:"], "DESIGN.md §6 C06")
+    return K.check(ctx, "C06", ["C06:", "kernel:"], "DESIGN.md §6 C06",
+                   extra_subs=[REMOTE_SUB], extra_trusted=TRUSTED_REMOTE)
 
 
 def replay(ctx, path):
-    return K.replay(ctx, path)
+    return K.replay(ctx, path, extra_pkgs={"remote": "c06remote"})
